@@ -111,6 +111,9 @@ def edit(res, rng, api, pat, proj, setter, fault_at, scribble, dup_yield, case, 
     expected = [row[:] for row in before_cells]
     counter = {"n": 0}
     # which exception the callable fails with is part of the fault (a generator cannot leak StopIteration: PEP 479 turns it into RuntimeError)
+    shared_note = make_note(rng, api) if (not scroll and rng.random() < 0.25) else None
+    if shared_note is not None:
+        res.count("edits_supplying_one_note_object_for_many_cells")
     fault_type = FAULT_TYPES[(fault_at or 0) % len(FAULT_TYPES)] if fault_at is not None else Injected
     res.hist("fault_exception_types", fault_type.__name__) if fault_at is not None else None
 
@@ -127,6 +130,9 @@ def edit(res, rng, api, pat, proj, setter, fault_at, scribble, dup_yield, case, 
                 note = p.data[(ln + 1) % lines][tr]
                 expected[ln][tr] = before_cells[(ln + 1) % lines][tr]
                 return note
+            if shared_note is not None and (ln + tr) % 3 == 0:
+                expected[ln][tr] = shared_note.raw_data          # one Note object supplied for many cells (a shared "rest")
+                return shared_note
             note = make_note(rng, api)
             expected[ln][tr] = note.raw_data
             return note
@@ -142,7 +148,7 @@ def edit(res, rng, api, pat, proj, setter, fault_at, scribble, dup_yield, case, 
             for (ln, tr) in cells:
                 if scribble:
                     s_ln, s_tr = rng.randrange(lines), rng.randrange(tracks)
-                    if rng.random() < 0.5:
+                    if shared_note is not None or rng.random() < 0.5:     # (an in-place change of a SHARED note object would show in every cell holding it)
                         n2 = make_note(rng, api)
                         new[s_ln][s_tr] = n2
                     else:
@@ -150,6 +156,12 @@ def edit(res, rng, api, pat, proj, setter, fault_at, scribble, dup_yield, case, 
                         n2 = new[s_ln][s_tr]
                         n2.vel = (n2.vel + 1 + rng.randrange(100)) % 130
                         n2.val = rng.randrange(65536)
+                        # an earlier edit may have put ONE note object into several cells: the working array keeps that
+                        # sharing, so the in-place change shows in each of them
+                        for l_ in range(lines):
+                            for t_ in range(tracks):
+                                if new[l_][t_] is n2:
+                                    expected[l_][t_] = n2.raw_data
                     expected[s_ln][s_tr] = n2.raw_data
                 if fault_at is not None and counter["n"] == fault_at:
                     raise fault_type(f"yield {counter['n']}")
@@ -157,6 +169,9 @@ def edit(res, rng, api, pat, proj, setter, fault_at, scribble, dup_yield, case, 
                 if scroll:
                     note = p.data[(ln + 1) % lines][tr]
                     expected[ln][tr] = before_cells[(ln + 1) % lines][tr]
+                elif shared_note is not None and (ln + tr) % 3 == 0:
+                    note = shared_note
+                    expected[ln][tr] = note.raw_data
                 else:
                     note = make_note(rng, api)
                     expected[ln][tr] = note.raw_data
